@@ -506,15 +506,16 @@ def _run_beh_sync(sc: Scenario, tok: str, args: Any, kwargs: Any, depvals: Any, 
 def build_payload(sc: Scenario, broker: AsyncBroker, m: Dict[str, Any], tok: str) -> bytes:
     kind = m.get("kind", "valid")
     if kind == "malformed":
-        v = m.get("variant", 0) % 5
-        return [
+        variants = [
             b"\xff\xfe not json",
             b"[1, 2, 3]",
             b'{"task_id": "x"}',
             b"   ",  # (not b"": identical empty bytes objects would share one identity)
             b'{"task_id": "%s", "task_name": "t_async", "labels": {"a": "q"}, '
             b'"labels_types": {"a": 2}, "args": [], "kwargs": {}}' % tok.encode(),
-        ][v]
+            b"-1", b"-2", b"null", b"{}", b"00", b"true", b'"-1"', b"-1 ",
+        ]
+        return variants[m.get("variant", 0) % len(variants)]
     labels = dict(m.get("labels", {}))
     labels["own"] = tok
     if m.get("timeout") is not None:
